@@ -4,7 +4,7 @@ From Coq Require Import String List NArith ZArith Bool Lia ZifyN ZifyNat ZifyBoo
 From J5V.lib Require Import Outcome.
 From J5V.model Require Import ProtoPrintLit ProtoPrint.
 From J5V.gen Require PrintGen.
-From J5V.proofs Require Import ProtoPrintLitProofs ProtoPrintProofs.
+From J5V.proofs Require Import ProtoPrintLitProofs ProtoPrintProofs ProtoPrintTokenProofs.
 Import ListNotations.
 Local Open Scope N_scope.
 
@@ -117,6 +117,30 @@ Theorem C05_scope_snapshot_refuted : forall pkg a, context_ref_name_snapshot pkg
 Proof. exact snapshot_self_reference_empty. Qed.
 Print Assumptions C05_scope_snapshot_refuted.
 
+(* ---- (3) option values at token level --------------------------------------------------------- *)
+(* for every option tree (scalars, nested messages, arrays, arrays of messages) the parser of the
+   emitted token subset reads back the tree the printer wrote, whatever follows; fuel = size of the tree *)
+Theorem C05_option_tokens_roundtrip : forall v rest,
+  parse_raw (size v) (print_val v ++ rest) = Some (raw_of v, rest).
+Proof. exact parse_print_val. Qed.
+Print Assumptions C05_option_tokens_roundtrip.
+
+(* print idempotence on the parser's image: parsing the printed tokens and printing the result again
+   reproduces the same tokens *)
+Theorem C05_option_tokens_idempotent : forall v,
+  match parse_raw (size v) (print_val v) with
+  | Some (r, []) => print_raw r = print_val v
+  | _ => False
+  end.
+Proof. exact print_parse_print_val. Qed.
+Print Assumptions C05_option_tokens_idempotent.
+
+(* ... and every leaf token denotes the scalar it was printed from, given the field's kind *)
+Theorem C05_option_leaf_roundtrip : forall s, wf_scalar s ->
+  read_scalar (kind_of s) (print_scalar s) = Some s.
+Proof. exact read_print_scalar. Qed.
+Print Assumptions C05_option_leaf_roundtrip.
+
 (* ---- tables re-read from the Go source on every run ------------------------------------------- *)
 Theorem C05_tables_agree :
   forallb (fun ce => bytes_eqb' (print_rune_esc (fst ce)) [92; snd ce]) PrintGen.short_escapes = true
@@ -139,6 +163,14 @@ Example C05_example_literal :
 Proof.
   cbv zeta. split; [repeat constructor|]. split; vm_compute; reflexivity.
 Qed.
+
+Example C05_example_option_tokens :
+  let v := OMsg [([103;101;116], OScalar (VStr [47;102;111;111]));
+                 ([114;117;108;101;115], OList [OMsg [([110], OScalar (VInt (-5)%Z))]; OMsg []]);
+                 ([105;110], OList [OScalar (VUint 1); OScalar (VUint 3)])] in
+  size v = 22%nat /\ length (print_val v) = 24%nat
+  /\ parse_raw (size v) (print_val v) = Some (raw_of v, []).
+Proof. cbv zeta. split; [|split]; vm_compute; reflexivity. Qed.
 
 (* message A { message B { C f = 1; } message C {} } : inside sc.v1.A.B the type sc.v1.A.C is printed "C" *)
 Example C05_example_scope :
